@@ -10,7 +10,8 @@
 (*   cl.ticks : tick -> [gross, net, sqrt]       initialised ticks, with    *)
 (*              the square-root price of the tick (as logged / MC grid)     *)
 (*   cl.tick, cl.sqrt, cl.liq : current tick, sqrt price, active liquidity *)
-(*   cl.curLo, cl.curHi : sqrt price of cl.tick and of cl.tick + 1          *)
+(*   cl.curLo, cl.curHi : sqrt prices of the edges of the tick-spacing cell  *)
+(*              that contains cl.tick (position boundaries live on that grid) *)
 (*   cl.maxId : largest position id ever used                              *)
 (* Numbers (liquidity, sqrt prices) go through a small interface so that    *)
 (* the bounded model uses TLC integers and trace validation BigNum.         *)
@@ -103,10 +104,11 @@ ApplySwap(S, down, newTick, newSqrt, newLo, newHi) ==
     IN  [S EXCEPT !.tick = newTick, !.sqrt = newSqrt, !.curLo = newLo, !.curHi = newHi,
                   !.liq = IF down THEN NSub(S.liq, net) ELSE NAdd(S.liq, net)]
 
+\* (the stored tick is not compared: a pool rounds its INITIAL tick down to the spacing grid, so the
+\* first swap may report a higher tick although the price went down; the price is what moves)
 SwapOK(S, down, newTick, newSqrt) ==
     /\ Ids(S) # {}
-    /\ IF down THEN newTick <= S.tick /\ NLe(newSqrt, S.sqrt)
-               ELSE newTick >= S.tick /\ NLe(S.sqrt, newSqrt)
+    /\ IF down THEN NLe(newSqrt, S.sqrt) ELSE NLe(S.sqrt, newSqrt)
 
 ---------------------------------------------------------------------------
 (* C07: the bookkeeping always agrees with the positions *)
@@ -125,8 +127,9 @@ TicksAgree(S) ==
          IN  /\ S.ticks[t].gross = NAdd(NSumSet(liqOf, los), NSumSet(liqOf, his))
              /\ S.ticks[t].net = NSub(NSumSet(liqOf, los), NSumSet(liqOf, his))
 
-\* the current price lies in the (closed) price bucket of the current tick, hence
-\* price and tick classify every position alike (below / inside / above its range)
+\* the current price lies in the (closed) price range of the spacing cell of the current tick, hence
+\* price and tick classify every position alike (below / inside / above its range) - the existing
+\* ones (checked explicitly) and any that could be created next (boundaries are grid ticks)
 PriceAgrees(S) ==
     Ids(S) # {} =>
       /\ (S.curLo # NZero => NLe(S.curLo, S.sqrt))
